@@ -7,12 +7,15 @@ gogo types) and on unsupported values, and every recorded call is judged by Trac
 C12: TLC enumerates every operation script up to a bounded depth over three extension slots
 (MCExtensions); the scripts are replayed on extendable corpus messages of every flavour under five
 slot-to-kind mappings and after every step all observations are compared with the model's state.
-C18: the marshal option matrix and the unmarshal acceptance table of the JSON adapters.
+C18: TLC model-checks the adapter model (JsonAdapter: nil check, delegation, detection order, per-path option wiring; three
+slips are expected violations) and enumerates the matrix of cells; the recorded MarshalJSON / UnmarshalJSON calls must cover
+the matrix and each is judged by TraceDispatch!JsonOK.
 """
 import glob
 import json
 import os
 import re
+import shutil
 import time
 
 import corpus
@@ -50,10 +53,13 @@ def check(prop, tier, seed, replay_path=None, selftest=False, keep=False):
             rp = json.load(open(replay_path))
             cfg, seed = rp["cfg"], rp["seed"]
         mcs, expected = [], []
+        tlaps = None
         scripts = None
         if prop == "C11":
             mcs.append(V.tlc_mc(scratch, "MCDispatch", "MCDispatch.cfg"))
             expected.append(tlc_expect_violation(scratch, "MCDispatch", "MCDispatch_storefirst.cfg", "ResultIsDeduce"))
+            tlaps = V.tlaps_prove(scratch, "DispatchProof", ["Dispatch.tla"],
+                                   "Spec => [](ResultIsDeduce /\\ cache entries equal Class) for every G in Nat and every non-empty set of types")
         if prop == "C12":
             # TLC enumerates the scripts (single worker: they are printed from an invariant)
             m = V.tlc_mc(scratch, "Extensions", cfg["mc"], workers=1)
@@ -65,6 +71,18 @@ def check(prop, tier, seed, replay_path=None, selftest=False, keep=False):
                 raise V.Inconclusive("TLC emitted no scripts")
             with open(scripts, "w") as f:
                 f.write("\n".join(lines) + "\n")
+        cells = None
+        if prop == "C18":
+            # the adapter model: requirement holds for json.go as found; three realistic wiring / ordering slips are expected violations;
+            # the reachable (direction, runtime, options[, input features]) cells are the matrix the recorded calls have to cover
+            m = V.tlc_mc(scratch, "JsonAdapter", "JsonAdapter.cfg", workers=1)
+            mcs.append(m)
+            log = open(os.path.join(scratch.dir, "mc-JsonAdapter", "tlc.log")).read()
+            cells = set(re.sub(r"\s+", "", l.split('"CELL",', 1)[1]).rstrip(">").lstrip("<") for l in log.splitlines() if '"CELL"' in l)
+            if not cells:
+                raise V.Inconclusive("TLC emitted no cells")
+            for v in ("swap_v1", "drop_v2_unknown", "v1_before_v2"):
+                expected.append(tlc_expect_violation(scratch, "JsonAdapter", "JsonAdapter_%s.cfg" % v, "Req"))
         cdir, entries, drv = corpus.build(scratch)
         outp = scratch.path("tr-" + prop)
         args = [drv, "-fam", cfg["fam"], "-seed", str(seed), "-random", str(cfg["random"]), "-shards", str(cfg["shards"]), "-out", outp, "-sets", cfg["sets"]]
@@ -79,6 +97,7 @@ def check(prop, tier, seed, replay_path=None, selftest=False, keep=False):
         results = V.tlc_trace(scratch, "TraceDispatch", "TraceDispatch.cfg", files, label="tv-" + prop)
         seen, nont, samples = set(), set(), []
         nev, nfail, ngroups = 0, 0, 0
+        covered = set()
         for tf, r in results:
             events = V.load_events(tf)
             if r["n"] != len(events):
@@ -98,6 +117,14 @@ def check(prop, tier, seed, replay_path=None, selftest=False, keep=False):
                 seen.add(h)
                 if prop != "C12" or (e["c"] == "extop" and (any(e["has"]) or e["op"][0] != "clearall")) or e["c"] == "extmis":
                     nont.add(h)
+            if cells is not None:
+                for e in events:
+                    if e["c"] == "json" and not e["nilmsg"] and e["fl"] in ("gogo", "googlev1", "google"):
+                        tf_ = lambda b: "TRUE" if b else "FALSE"
+                        if e["dir"] == "marshal":
+                            covered.add('"marshal","%s",%d,%s,%s' % (e["fl"], min(e["indent"], 2), tf_(e["enumnums"]), tf_(e["emitzero"])))
+                        else:
+                            covered.add('"unmarshal","%s",%s,%s,%s,%s' % (e["fl"], tf_(e["unkkey"]), tf_(e["missreq"]), tf_(e["allowunk"]), tf_(e["allowpartial"])))
             for k in (1, len(events) // 2):
                 if len(samples) < 4 and len(events) > k:
                     e = events[k]
@@ -121,6 +148,12 @@ def check(prop, tier, seed, replay_path=None, selftest=False, keep=False):
                 verdicts.fail(sig, {"property": prop, "cfg": cfg, "seed": seed, "observed": e}, "%d-%d" % (nfail, i))
                 nfail += 1
         rc = verdicts.finish()
+        missing = sorted(cells - covered) if cells is not None else []
+        if missing and not replay_path:
+            # cells with a missing required field need a proto2 type with required fields of that flavour; everything else must be covered
+            hard = [c for c in missing if not (c.startswith('"unmarshal"') and c.split(",")[3] == "TRUE")]
+            if hard:
+                raise V.Inconclusive("the recorded calls do not cover %d of the %d cells of JsonAdapter, e.g. %s" % (len(hard), len(cells), hard[:3]))
         if replay_path:
             print("replay: %d events re-recorded, %s" % (nev, "violation reproduced" if rc else "no violation"))
             return rc
@@ -129,8 +162,10 @@ def check(prop, tier, seed, replay_path=None, selftest=False, keep=False):
                "evaluations": nev, "distinct_nontrivial": len(nont), "distinct_cases": len(seen), "rule": RULES[prop], "samples": samples,
                "exhaustive": prop == "C12", "expected_violation_configs": expected,
                "tlc_generated_scripts": len(open(scripts).read().splitlines()) if scripts else 0,
+               "tlaps": tlaps,
+               "matrix_cells": {"reachable_in_model": len(cells), "covered_by_recorded_calls": len(cells & covered), "not_covered": missing} if cells is not None else None,
                "explanation": ("TLC model checking: " + "; ".join("%s/%s %d states" % (m["module"], m["cfg"], m["states"]) for m in mcs) + ". " if mcs else
-                               "No separate state-space exploration for this property (an option/effect table); TLC judges every recorded call. ") +
+                               "") +
                               "Trace validation: TraceDispatch.",
                "known_findings_fired": sorted(verdicts.known_hits)}
         level = "model_checking" if mcs else "exploration"
